@@ -102,6 +102,7 @@ fn c14_used(w: &mut World, site: &str, log: &RngLog, used: Option<&BigUint>, cas
                 format!("{site}: used scalar {} is outside [1, n-1]", hex::encode(kb))
             });
             w.scalar_used(site, &kb, case);
+            w.observed.push(("sm2".to_string(), kb.to_vec()));
         }
     }
     for c in &log.offered {
